@@ -12,6 +12,7 @@ import TonVerif.Proofs.OrdCell
 import TonVerif.Proofs.Binding
 import TonVerif.Proofs.SrcArith
 import TonVerif.Generated.CellArith
+import TonVerif.Proofs.SrcCellCtor
 
 namespace TonVerif.Properties.C01
 open TonVerif TonVerif.Model TonVerif.Proofs.OrdCell
@@ -154,5 +155,42 @@ example : Generated.bitsDescriptor 1023 = 255 ∧ Generated.bitsDescriptor 8 = 2
     Generated.depthTooLarge 1023 = false ∧ Generated.depthTooLarge 1024 = true := by decide
 
 end Src
+
+/-! ## Source-regenerated constructor (`Generated/CellCtor.lean`: `Cell.__init__` with `resolve_mask`, the `calculate_hashes`
+loop, the descriptors and the completion-tag padding of `get_data_bytes`, re-translated from cell.py on every run by
+harness/translate/cellctor.py + pyobj.py; `hashlib.sha256` is the parameter `H`, a child cell is its `CellInfo`)
+
+The hand model `Model.construct`, about which every theorem above is proved, equals the regenerated constructor for ALL
+inputs (`Proofs/SrcCellCtor.lean`); so the theorems hold for what the source computes, not for a transcription checked by
+samples. -/
+section SrcCtor
+open TonVerif.Generated.CellCtor TonVerif.Proofs.SrcCellCtor
+
+/-- ordinary cells (`cell_type = -1`): for ALL bit strings (any length) and ALL lists of child infos (any number, any level
+masks, any stored hashes and depths) the regenerated `Cell.__init__` raises exactly when the hand model does and otherwise
+returns the same level mask, `_hashes` and `_depths`, with `_hash` (`Cell.hash`) = the model's `CellInfo.hash`, `_descriptors` and
+`_data_bytes` = the model's descriptor bytes and padded data (`CtorOut.ofModel`); the completion-tag padding is the spec's. -/
+theorem c01_src_constructor (H : Bytes → Bytes) (bits : Bits) (refs : List CellInfo) :
+    init H bits refs (-1) = (construct H (-1) bits refs).map CtorOut.ofModel ∧
+    (init H bits refs (-1)).map CtorOut.toInfo = construct H (-1) bits refs ∧
+    get_data_bytes (self_bits := bits) = some (dataBytes bits) ∧ dataBytes bits = Spec.dataBytes bits :=
+  ⟨src_construct_eq_model H (-1) bits refs, src_construct_info H (-1) bits refs, get_data_bytes_eq bits,
+    TonVerif.Proofs.CellSpec.dataBytes_eq bits⟩
+
+/-- `c01_hash_depth` and `c01_constructible_iff` for the regenerated code: applying the REGENERATED constructor bottom-up to any
+tree of ordinary cells succeeds exactly when the depth is at most 1023, and then the level mask is 0 and hash / depth at every
+level are the standard representation hash / depth. -/
+theorem c01_src_hash_depth (H : Bytes → Bytes) (c : Cell) (wf : OrdWF c) :
+    ((srcInfo H c).isSome ↔ ordDepth c ≤ 1023) ∧
+    (ordDepth c ≤ 1023 → ∃ i, srcInfo H c = some i ∧ i.mask = 0 ∧ i.hash = ordHash H c ∧
+      ∀ l, i.getHash l = some (ordHash H c) ∧ i.getDepth l = some (ordDepth c)) := by
+  rw [srcInfo_eq]
+  exact ⟨c01_constructible_iff H c wf, c01_hash_depth H c wf⟩
+
+/-! Non-vacuity: the regenerated constructor builds `sample` (5 bits, two references), for every hash function. -/
+example (H : Bytes → Bytes) : (srcInfo H sample).isSome = true :=
+  (c01_src_hash_depth H sample (by simp [sample, OrdWF, OrdWFs])).1.mpr (by simp [sample, ordDepth, ordDepthMax])
+
+end SrcCtor
 
 end TonVerif.Properties.C01
